@@ -466,6 +466,20 @@ func nonNilErr(e ssa.Value, facts []Fact, depth int) bool {
 			case "fmt.Errorf", "errors.New", "errors.Join":
 				return true
 			}
+			// a helper whose every return hands back a definitely non-nil error
+			// (func (m *T) failure() error { log(); return fmt.Errorf(…) })
+			if c.Blocks != nil && depth < 3 && c.Signature.Results().Len() == 1 {
+				all, n := true, 0
+				for _, ret := range Returns(c) {
+					n++
+					if len(ret.Results) != 1 || !nonNilErr(ret.Results[0], BlockFacts(ret.Block()), depth+1) {
+						all = false
+					}
+				}
+				if all && n > 0 {
+					return true
+				}
+			}
 		}
 	case *ssa.UnOp:
 		if x.Op == token.MUL {
